@@ -47,7 +47,38 @@ ASSUMED (trusted): GPR.__str__ returns the text to_string() prints (rule_text, u
 rule object g with parsed_from(g) == text and writes nothing else (that from_string parses what to_string printed back to an
 equivalent rule is the bounded text round trip of C08 / C11, not claimed here); the pickle / deepcopy codec (structural copy, memo).
 
-MUTATION TRIALS (tools/mutate_and_run.sh; every one fails) - see the end of this docstring, filled in by the trials that were run.
+FINDING (reported, NOT absorbed; it marks the boundary of the codec assumption of lemmas(): `a reaction's members, and the reactions
+of a model, are restored before the owner's __setstate__ runs`).  Reaction.__getstate__ keeps `_model` (proved above: every entry
+but `_gpr` is passed on).  Pickling a REACTION THAT BELONGS TO A MODEL on its own - or any structure that reaches the reaction
+before its model, e.g. [reaction] or (reaction, model) - therefore serialises the model INSIDE the reaction's state; on loading,
+Model.__setstate__ runs while the reaction is still an object without attributes (its own __setstate__ comes last), i.e. OUTSIDE the
+stated precondition of the proved Model.__setstate__ contract (`the reactions that come with the state have valid bounds`).  Native
+reproduction (/venv/bin/python against /repo):
+    m = cobra.Model("m"); a = cobra.Metabolite("a_c", compartment="c")
+    r = cobra.Reaction("R1", lower_bound=-10, upper_bound=10); r.add_metabolites({a: -1}); m.add_reactions([r])
+    pickle.loads(pickle.dumps(r))        ->  AttributeError: 'Reaction' object has no attribute '_lower_bound'
+                                             (model.py Model.__setstate__: reaction.update_variable_bounds())
+    same for pickle.dumps([r]) and pickle.dumps((r, m)); pickle.dumps((m, r)), pickle.dumps(m), pickle.dumps(m.reactions), a detached
+    reaction, copy.deepcopy(r) and r.copy() work.
+The AttributeError comes from the loop the repair fdf97f9 added to Model.__setstate__; WITHOUT that loop (scratch copy of the source)
+the load "succeeds" but the restored model's reactions DictList has indexed the half-built reaction under the identifier None
+(`r2.model.reactions.R1` raises) - the defect is the protocol (the reaction's state reaches its model), older than that repair.
+C11 / C12 speak about pickling MODELS (which works, and is what the lemmas cover); the documented purpose of Reaction.__getstate__
+("This serializes the reaction object") is not met for a reaction in a model.
+
+MUTATION TRIALS (tools/mutate_and_run.sh; every one fails):
+  model.py     `odict["_contexts"] = self._contexts` -> Model.__getstate__ exit post.6 sat; `odict["_context"] = []` -> post sat;
+               `self._tolerance = None` inserted (the ORIGINAL written) -> post.9 sat; `self._contexts.clear()` inserted -> undecided
+               (list.clear unsupported), `self._contexts = []` inserted -> checker error (not discharged)
+  object.py    `if "_model" not in state:` -> Object.__getstate__ post.5 / post.6 sat (cases with a model pointer)
+  species.py   `state["_reaction"] = self._reaction` -> Species.__getstate__ post.5 sat
+  reaction.py  __getstate__: `state["_gpr"] = self._gpr` -> post.5 sat; `state["_genes"] = set()` inserted -> post.7 sat
+               __setstate__: first `x._reaction.add(self)` dropped -> loop#0/inv-preserve.1 unknown; `x._model = None` ->
+               loop#0/inv-preserve.2 unknown; `state["_upper_bound"] = state.pop("lower_bound")` -> post sat (old_pickle:public_names);
+               `if "_gpr" in state:` -> unexpected KeyError sat; second loop's add dropped -> loop#1/inv-preserve.1 unknown;
+               `state["_gpr"] = state["name"]` -> post.3 / post.4 sat (old_pickle:private_rule_text); `state.pop("reaction")` -> `pass`
+               -> post sat; `type(...) is not str` -> post unknown / undecided; genes loop `x._model = self` -> loop#1/inv-preserve.2 unknown
+  lemmas       heap_clauses with `done` replaced by False -> both step lemmas sat
 """
 import z3
 from .common import *  # noqa
@@ -321,16 +352,18 @@ def _rs_maps(E, st):
     return dm, dg, mdl
 
 
-def _rs_heap(E, st, done_m, done_g):
-    """`_reaction` / `_model` of every object: the members handled so far list the receiver (and what they listed before) and point
-    at the receiver's model, everything else is as found"""
-    RX0, RX = E.eng.heap_arr(E.s0, "_reaction"), E.eng.heap_arr(st, "_reaction")
-    MO0, MO = E.eng.heap_arr(E.s0, "_model"), E.eng.heap_arr(st, "_model")
-    _, _, mdl = _rs_maps(E, st)
+def heap_clauses(RX0, RX, MO0, MO, me, mdl, done):
+    """what Reaction.__setstate__ does to `_reaction` / `_model` of every object x: the members handled (`done(x)`) list the
+    receiver `me` in addition to what they listed before and point at the receiver's model `mdl`; everything else is as found"""
     x = qv("px", Ref)
-    done = z3.Or(done_m(x), done_g(x))
-    return [FA([x], RX[x] == z3.If(done, z3.Store(RX0[x], _me(E), z3.BoolVal(True)), RX0[x]), patterns=[RX[x]]),
-            FA([x], MO[x] == z3.If(done, mdl, MO0[x]), patterns=[MO[x]])]
+    return [FA([x], RX[x] == z3.If(done(x), z3.Store(RX0[x], me, z3.BoolVal(True)), RX0[x]), patterns=[RX[x]]),
+            FA([x], MO[x] == z3.If(done(x), mdl, MO0[x]), patterns=[MO[x]])]
+
+
+def _rs_heap(E, st, done_m, done_g):
+    _, _, mdl = _rs_maps(E, st)
+    return heap_clauses(E.eng.heap_arr(E.s0, "_reaction"), E.eng.heap_arr(st, "_reaction"), E.eng.heap_arr(E.s0, "_model"),
+                        E.eng.heap_arr(st, "_model"), _me(E), mdl, lambda x: z3.Or(done_m(x), done_g(x)))
 
 
 def _rs_inv_mets(E, Lc):
@@ -403,3 +436,58 @@ REG.add(Contract("cobra/core/reaction.py", "Reaction.__setstate__", "C12", [("se
 
 KEYS = [KEY_MODEL_GET, KEY_OBJECT_GET, KEY_SPECIES_GET, KEY_RXN_GET, KEY_RXN_SET]
 ASSUMED_KEYS = ["GPR.__str__", "GPR.from_string"]
+
+
+# ================================================================ glue lemmas: __getstate__, structural copy, __setstate__
+def lemmas():
+    """What the two ends give TOGETHER, relative to the assumed codec (pickle / deepcopy copy the state dictionaries structurally,
+    call every restored object's __setstate__ / __dict__.update exactly once, and restore the keys of a reaction's stoichiometry
+    and its genes BEFORE the reaction's own __setstate__ runs - possible because, by the proved __getstate__ contracts, a species'
+    state holds no reference back to a reaction or to the model: this is WHY `_reaction` / `_model` are dropped):
+
+      rule-text: the `_gpr` entry Reaction.__getstate__ writes is rule_text(g) (its post-condition); a string is copied to an equal
+        string; Reaction.__setstate__ (case as_written:rule_text) leaves a rule object g2 with parsed_from(g2) == that entry; hence
+        parsed_from(g2) == rule_text(g): the restored rule is GPR.from_string(str(original rule)) - nothing else touches it.
+      cross-references (the C02 invariant on the species side), by induction over the restored reactions r_0 .. r_(n-1) (pairwise
+        different objects: ghost index idx / rx):  INV(k):  for every object x and y:  y in x._reaction  <=>  y is r_j for some
+        j < k and x is a key of r_j's stoichiometry or one of its genes.
+          base: a restored species starts from the EMPTY set Species.__getstate__ wrote (its post-condition) -> INV(0);
+          step: INV(k) and the post-condition of Reaction.__setstate__ for r_k (heap_clauses, the very builder of the contract)
+                give INV(k + 1).
+        With INV(n) and Model.__setstate__'s proved `every member of the four lists points at the restored model`
+        (contracts/misc_small.py) the restored model satisfies: x._reaction = {restored reactions that use x}, member._model = model."""
+    from pyvc.engine import Obl
+    from .c11_reader import _check_hyps
+    out = []
+    # ---- rule text
+    g, g2 = z3.Const("lk_rule", Ref), z3.Const("lk_rule_restored", Ref)
+    written, copied = z3.Const("lk_written_entry", Id), z3.Const("lk_copied_entry", Id)
+    hyps = [written == rule_text(g), copied == written, g2 != NULL, parsed_from(g2) == copied]
+    _check_hyps("C12/lemma/pickle/rule-text", hyps)
+    out.append(Obl("C12/lemma/pickle/restored-rule-is-parsed-from-the-text-of-the-original-rule", hyps,
+                   z3.And(g2 != NULL, parsed_from(g2) == rule_text(g)), "lemma"))
+    # ---- cross references: induction over the restored reactions
+    SetMap = z3.ArraySort(Ref, z3.ArraySort(Ref, z3.BoolSort()))
+    RXk, RXk1 = z3.Const("lk_reaction_sets_before", SetMap), z3.Const("lk_reaction_sets_after", SetMap)
+    MOk, MOk1 = z3.Const("lk_model_before", z3.ArraySort(Ref, Ref)), z3.Const("lk_model_after", z3.ArraySort(Ref, Ref))
+    idx = z3.Function("lk_index_of_restored_reaction", Ref, z3.IntSort())
+    rx = z3.Function("lk_restored_reaction", z3.IntSort(), Ref)
+    uses = z3.Function("lk_uses", z3.IntSort(), Ref, z3.BoolSort())        # x is a key / a gene of the j-th restored reaction
+    k, mdl = z3.Int("lk_k"), z3.Const("lk_model", Ref)
+    x, y = z3.Const("lk_x", Ref), z3.Const("lk_y", Ref)
+
+    def inv(RX, upto, xx, yy):
+        return RX[xx][yy] == z3.And(0 <= idx(yy), idx(yy) < upto, rx(idx(yy)) == yy, uses(idx(yy), xx))
+    qx, qy = qv("lx", Ref), qv("ly", Ref)
+    empty = FA([qx], RXk[qx] == z3.K(Ref, z3.BoolVal(False)), patterns=[RXk[qx]])
+    hyps0 = [empty]
+    _check_hyps("C12/lemma/pickle/xref-base", hyps0)
+    out.append(Obl("C12/lemma/pickle/cross-references/base-restored-species-start-from-the-empty-set", hyps0, inv(RXk, 0, x, y), "lemma"))
+    hyps = [k >= 0, idx(rx(k)) == k,
+            FA([qx, qy], inv(RXk, k, qx, qy), patterns=[z3.Select(z3.Select(RXk, qx), qy)])] + \
+        heap_clauses(RXk, RXk1, MOk, MOk1, rx(k), mdl, lambda v: uses(k, v))
+    _check_hyps("C12/lemma/pickle/xref-step", hyps)
+    out.append(Obl("C12/lemma/pickle/cross-references/step-restoring-one-more-reaction", hyps, inv(RXk1, k + 1, x, y), "lemma"))
+    out.append(Obl("C12/lemma/pickle/cross-references/step-members-point-at-the-reaction's-model", hyps,
+                   z3.Implies(uses(k, x), MOk1[x] == mdl), "lemma"))
+    return out
